@@ -321,13 +321,8 @@ func (h *hHeap) apply(t int, op int) {
 // valueFor picks a value that may be stored into list t without creating a cycle:
 // ints, strings, the object, or list B (index 1) unless t is B itself.
 func (h *hHeap) valueFor(t int) (any, mval) {
-	k := nondetIntRange(0, 5)
+	k := nondetIntRange(0, 3)
 	switch k {
-	case 4:
-		b := nondetBool()
-		return b, mval{kind: TypeBool, b: b}
-	case 5:
-		return nil, mval{kind: TypeNil}
 	case 0:
 		v := nondetInt()
 		return v, mval{kind: TypeInt, i: v}
@@ -448,5 +443,59 @@ func H_C05_three_steps_after_sort() {
 	verifAssert(l.Contains(q) == (first >= 0), "Contains iff some element is the same value / identical container")
 	verifAssert(l.IndexOf(q) == first, "IndexOf is the first position holding the value, or -1")
 	verifAssert(l.Count() == len(m) && l.Empty() == (len(m) == 0), "Count / Empty describe the list")
+	verifReach("end")
+}
+
+// Contains / IndexOf over every scalar kind (bools, nil, floats and strings next to ints): the first position
+// holding a value of the same kind and the same value, or -1
+func H_C05_lookup_every_scalar_kind() {
+	n := nondetIntRange(0, 3)
+	l := NewList()
+	m := make([]mval, 0, n)
+	pick := func() (any, mval) {
+		switch nondetIntRange(0, 4) {
+		case 0:
+			b := nondetBool()
+			return b, mval{kind: TypeBool, b: b}
+		case 1:
+			return nil, mval{kind: TypeNil}
+		case 2:
+			f := hFiniteFloat()
+			return f, mval{kind: TypeFloat, f: f}
+		case 3:
+			s := hBytesStr(1)
+			return s, mval{kind: TypeString, s: s}
+		default:
+			v := nondetInt()
+			return v, mval{kind: TypeInt, i: v}
+		}
+	}
+	for i := 0; i < n; i++ {
+		v, mv := pick()
+		l.Add(v)
+		m = append(m, mv)
+	}
+	q, qm := pick()
+	first := -1
+	for i := n - 1; i >= 0; i-- {
+		same := false
+		if m[i].kind == qm.kind {
+			switch qm.kind {
+			case TypeBool:
+				same = m[i].b == qm.b
+			case TypeNil:
+				same = true
+			case TypeFloat:
+				same = m[i].f == qm.f
+			case TypeString:
+				same = m[i].s == qm.s
+			default:
+				same = m[i].i == qm.i
+			}
+		}
+		first = verifIteInt(same, i, first)
+	}
+	verifAssert(l.IndexOf(q) == first, "IndexOf is the first position holding the value, or -1")
+	verifAssert(l.Contains(q) == (first >= 0), "Contains iff some element is the same value / identical container")
 	verifReach("end")
 }
